@@ -275,7 +275,13 @@ func c07Query(r *core.Run, idx int, rng *rand.Rand) {
 		class = append(class, "with_destination")
 	}
 	lbl := strings.Join(class, ",")
-	call := e.Do(env.Req{Method: "POST", Path: env.PathAttr, Body: body, CT: "text/xml; charset=utf-8", Headers: map[string][]string{"SOAPAction": {"http://www.oasis-open.org/committees/security"}}})
+	// the envelope may arrive in one piece or in pieces (TCP segments)
+	chunk := []int{0, 0, 1, 7, 512, 1460, 4096}[rng.Intn(7)]
+	if chunk > 0 {
+		class = append(class, "body_in_pieces")
+		lbl = strings.Join(class, ",")
+	}
+	call := e.Do(env.Req{Method: "POST", Path: env.PathAttr, Body: body, CT: "text/xml; charset=utf-8", Chunk: chunk, Headers: map[string][]string{"SOAPAction": {"http://www.oasis-open.org/committees/security"}}})
 	r.Eval(fmt.Sprintf("%s|%s|%q|%v|%d", lbl, q.Style.String(), q.SoapPfx, q.Header, len(q.Attrs)))
 	desc := map[string]any{"class": class, "body": clipS(body, 2500)}
 	if call.Panic != "" {
